@@ -440,3 +440,87 @@ Definition extract_after {R : Type} (f : registry -> str -> R) (hist : list effe
   f (after_history hist g) x.
 
 Definition writes_nothing (e : effect) : bool := is_nil (fx_writes e).
+
+(* ======================================================================= Part E: content type by file name *)
+Definition OCTET : str := s "application/octet-stream".
+
+(* open_office/_shared.guess_content_type and epub_extractor._guess_content_type AS FOUND:
+   mimetypes.guess_type(path)[0] or "application/octet-stream", a look-up in the PROCESS-GLOBAL registry g
+   (host mime.types + every add_type of the process); ext_of = the library's suffix rule (oracle) *)
+Definition guess_global (ext_of : str -> str) (g : registry) (path : str) : str :=
+  match assoc (ext_of path) g with
+  | Some t => if is_nil t then OCTET else t
+  | None => OCTET
+  end.
+
+(* repaired (fixes/proposed-not-applied/C06-private-mime-registry.patch): the same look-up in a private table T
+   (mimetypes.MimeTypes(filenames=()): Python's built-in defaults), whatever the process-global registry holds *)
+Definition guess_private (ext_of : str -> str) (T : registry) (g : registry) (path : str) : str :=
+  guess_global ext_of T path.
+
+(* ======================================================================= Part F: removing id(reader) from reprs *)
+(* pdf_extractor: re.sub(r"(IndirectObject\(\d+, \d+), \d+\)", r"\1)", text)  (any_gen = true), and the variant
+   r"(IndirectObject\(\d+, 0), \d+\)" (any_gen = false).  ASCII is_digits only (pypdf prints ints). *)
+Definition is_digit (c : N) : bool := (48 <=? c) && (c <=? 57).
+
+Fixpoint span_digits (x : str) : str * str :=
+  match x with
+  | [] => ([], [])
+  | c :: r => if is_digit c then let (d, t) := span_digits r in (c :: d, t) else ([], x)
+  end.
+
+Definition drop_prefix (p x : str) : option str :=
+  if startswith x p then Some (skipn (List.length p) x) else None.
+
+Definition IND : str := s "IndirectObject(".
+Definition SEP : str := s ", ".
+
+(* a match of the pattern at the head of x: (replacement text, rest of x) *)
+Definition match_ind (any_gen : bool) (x : str) : option (str * str) :=
+  match drop_prefix IND x with
+  | None => None
+  | Some x1 =>
+    let (dn, x2) := span_digits x1 in
+    if is_nil dn then None else
+    match drop_prefix SEP x2 with
+    | None => None
+    | Some x3 =>
+      let (dg, x4) := span_digits x3 in
+      if is_nil dg || (negb any_gen && negb (str_eqb dg (s "0"))) then None else
+      match drop_prefix SEP x4 with
+      | None => None
+      | Some x5 =>
+        let (did, x6) := span_digits x5 in
+        if is_nil did then None else
+        match x6 with
+        | 41 :: x7 => Some (IND ++ dn ++ SEP ++ dg ++ [41], x7)
+        | _ => None
+        end
+      end
+    end
+  end.
+
+(* re.sub: leftmost, non-overlapping; None = out of fuel (never, see C06_strip_reader_id_independent) *)
+Fixpoint sub_fuel (any_gen : bool) (fuel : nat) (x : str) : option str :=
+  match fuel with
+  | O => None
+  | S f =>
+    match x with
+    | [] => Some []
+    | c :: r =>
+      match match_ind any_gen x with
+      | Some (rep, rest) => option_map (app rep) (sub_fuel any_gen f rest)
+      | None => option_map (cons c) (sub_fuel any_gen f r)
+      end
+    end
+  end.
+
+Definition strip_ids (any_gen : bool) (x : str) : option str := sub_fuel any_gen (S (List.length x)) x.
+
+(* repr(IndirectObject(n, g, pdf)) with the numbers given as digit strings *)
+Definition show_ind (dn dg did : str) : str := IND ++ dn ++ SEP ++ dg ++ SEP ++ did ++ [41].
+Definition is_digits (d : str) : bool := negb (is_nil d) && forallb is_digit d.
+
+(* classes of stringification sites (Gen/C06Sites.stringify_sites) *)
+Inductive sclass := KStripped | KException | KReviewed | KObject.
+Definition sclass_ok (k : sclass) : bool := match k with KObject => false | _ => true end.
